@@ -62,6 +62,10 @@ def run(ctx):
         c = owner[rid]
         ctx.violation(clause, {"kind": "nt-long", "case": {"id": c["id"], "res": c["res"], "lines": len(c["body"])}, "window": rid,
                                "text_bytes": len(nt.case_text(c))}, key=clause)
+    # block boundaries: the section laid out so that boundaries of every power-of-two block size (and of multiples of 1000)
+    # fall right behind, just after and inside its lines; > 2^20 characters; through from_file and from_filepath
+    from chartgen import judge_block_alignment
+    judge_block_alignment(ctx, "C02", ['track'])
     ctx.assumptions += [
         "well-formed section: N lines in tick order, one line per index per tick, every tick has a lane or open line",
         "the exhaustive NoteTrack scope is bounded (see tlc_runs); beyond it coverage is seeded",
